@@ -232,6 +232,9 @@ def c09_streams(tier, rng):
         Stream("single-step", "adapt", gens.lts_single_step(kinds, ml, mp), adapt_nontriv, True,
                "head/tail/skip x {static,dyninit,dynamic} x {unbatched,batched}: source [1..n] n<=%d x limit/count 0..%d x every diff kind with every index 0..n+1 (Append/Reset of 0..3 items) and every limit/count change 0..%d -> 0..%d; every adapter state is an initial state, so this covers the whole transition function up to the bounds; non-trivial = a diff is emitted" % (ml, mp, mp, mp),
                adapt_hist, oracles=orc),
+        Stream("param-then-diff", "adapt", gens.lts_param_then_diff(kinds, 3 if q else 4, 4 if q else 5), adapt_nontriv, True,
+               "head/tail/skip with a dynamic parameter: from every (vector of <= %d items, parameter 0..%d) state a change to every other parameter value, drained, then every applicable source diff, drained: what a parameter change leaves behind in the adapter is used by the next source diff" % ((3, 4) if q else (4, 5)),
+               adapt_hist, oracles=orc),
         Stream("random", "adapt", gens.rand_adapt(rng, kinds, n), adapt_nontriv, False,
                "%d seeded random histories of 3..30 events (source diffs, batches, limit changes, single polls, drains, end of source/limit stream) over scripted streams" % n,
                adapt_hist, oracles=orc),
@@ -254,6 +257,9 @@ def c10_streams(tier, rng):
     return [
         Stream("single-step", "adapt", gens.filter_single_step(ml), adapt_nontriv, True,
                "filter/filter_map x {unbatched,batched}: source [0..n-1] n<=%d x all 2^n pass/fail assignments x every applicable diff with passing (6) and failing (7) new items, Append/Reset with every pass/fail pattern up to 3 items" % ml,
+               adapt_hist, oracles=orc),
+        Stream("multi-step-ends", "adapt", gens.filter_multi_step(4 if q else 5), adapt_nontriv, True,
+               "every sequence of %d operations over 10 that work at the ends of the source (push a passing / a rejected item at either end, pop at either end, set / remove / insert at the last position), polled once at the end, from an all-passing and a mixed source, filter and filter_map: a cached quantity that goes stale on one path needs that path and two or three further steps before it is used" % (4 if q else 5),
                adapt_hist, oracles=orc),
         Stream("two-step", "adapt", gens.filter_two_step(2 if q else 3), adapt_nontriv, True,
                "filter/filter_map x {unbatched,batched}: source [0..n-1] n<=%d x all pass/fail assignments x every PAIR of applicable diffs (drained after each): defects where one diff corrupts filtered_indices/original_len and the next exposes it" % (2 if q else 3),
